@@ -32,8 +32,8 @@ theorem missing_becomes_error_entry (w : World) (o : Opts) (r : Req) (st : St)
     (stepPending w o r st).slot r.spec =
       some (.err { kind := .missing, spec := r.spec, referrer := r.range }) := by
   have ht : tryLoad w o r = .err { kind := .missing, spec := r.spec, referrer := r.range } := by
-    simp [tryLoad, h]
-  simp only [stepPending, ht, checkSpecifier_eq, slot_setSlot, if_true]
+    simp [tryLoad, tryLoad', World.answer, h]
+  simp only [stepPending, ht, applyOutcome, checkSpecifier_eq, slot_setSlot, if_true]
 
 /-- … a loader error … -/
 theorem loader_error_becomes_error_entry (w : World) (o : Opts) (r : Req) (st : St)
@@ -41,8 +41,8 @@ theorem loader_error_becomes_error_entry (w : World) (o : Opts) (r : Req) (st : 
     (stepPending w o r st).slot r.spec =
       some (.err { kind := .loader, spec := r.spec, referrer := r.range }) := by
   have ht : tryLoad w o r = .err { kind := .loader, spec := r.spec, referrer := r.range } := by
-    simp [tryLoad, h]
-  simp only [stepPending, ht, checkSpecifier_eq, slot_setSlot, if_true]
+    simp [tryLoad, tryLoad', World.answer, h]
+  simp only [stepPending, ht, applyOutcome, checkSpecifier_eq, slot_setSlot, if_true]
 
 /-- … a redirect beyond the limit, or back to the requested specifier itself (fixed finding F13) -/
 theorem redirect_loop_becomes_error_entry (w : World) (o : Opts) (r : Req) (st : St) (to : Spec)
@@ -51,23 +51,24 @@ theorem redirect_loop_becomes_error_entry (w : World) (o : Opts) (r : Req) (st :
     (stepPending w o r st).slot r.spec =
       some (.err { kind := .tooManyRedirects, spec := r.spec, referrer := r.range }) := by
   have ht : tryLoad w o r = .err { kind := .tooManyRedirects, spec := r.spec, referrer := r.range } := by
-    unfold tryLoad
-    simp only [h, hc, Option.isSome_none, Bool.false_eq_true, if_false]
+    unfold tryLoad tryLoad'
+    simp only [World.answer, h, hc, Option.isSome_none, Bool.false_eq_true, if_false]
     have : (decide (r.count ≥ w.maxRedirects) || to == r.spec) = true := by
       rcases hl with hl | hl
       · simp [hl]
       · simp [hl]
     simp [this]
-  simp only [stepPending, ht, checkSpecifier_eq, slot_setSlot, if_true]
+  simp only [stepPending, ht, applyOutcome, checkSpecifier_eq, slot_setSlot, if_true]
 
 /-- undecodable / unparsable content is an error entry at the final specifier -/
 theorem bad_content_becomes_error_entry (w : World) (o : Opts) (r : Req) (st : St) (f : Spec)
     (k : ErrKind) (ref : Option Nat) (h : w.respOf r.spec = .module f) (ha : r.isAsset = false)
+    (hk : r.checksum = none)
     (hc : classify o (w.contentOf r.spec) r.attr r.range r.spRef r.isRoot r.inDyn = .err k ref) :
     (stepPending w o r st).slot f = some (.err { kind := k, spec := f, referrer := ref }) := by
   have ht : tryLoad w o r = .err { kind := k, spec := f, referrer := ref } := by
-    simp [tryLoad, h, ha, hc]
-  simp only [stepPending, ht, slot_setSlot, if_true]
+    simp [tryLoad, tryLoad', World.answer, moduleOutcome, h, ha, hc, hk]
+  simp only [stepPending, ht, applyOutcome, slot_setSlot, if_true]
 
 /-- an error never leaves the requested specifier pending -/
 theorem error_settles_request (w : World) (o : Opts) (r : Req) (st : St) (e : BErr)
